@@ -113,7 +113,7 @@ PROPS = {
     "C09": {
         "level": "proof",
         "lean_modules": ["RaftVerif.Properties.C09"],
-        "engines": [E4("churn", 60, 500), E4("snapmember", 20, 300), E4D("S3-lost-removal,S4-membership-two-apart"), E3_EL],
+        "engines": [E4("churn", 60, 500), E4("snapmember", 20, 300), E4D("S3-lost-removal,S4-membership-two-apart,S24-leader-demotes-itself"), E3_EL],
         "explanation": "Machine-checked for every node state: non-voters never count (hasQuorum = strict majority of voters; the commit rule counts voters only; a non-voter never campaigns; no vote request for or by a non-voter; non-voter replies confirm nothing), quorums of one configuration intersect. The cluster-level statement is FALSE of this code (known findings S3, S4; Lean witness C09_counterexample_removal_not_pending): both are replayed on the real code as directed schedules and reported as KNOWN-FINDING; violations with another signature (e.g. safety broken while all nodes are at most one configuration apart) are reported as violations. Search: " + CLUSTER_NOTE + " with random add-non-voter/promote/remove requests.",
         "assumptions": ["known findings S3, S4 (see known_findings.json)"],
     },
